@@ -218,8 +218,13 @@ Step ==
                    st(x) == ev.files[ToString(x)]
                    corrupt == {x \in 0..(ev.n - 1) : st(x).state = "corrupt"}
                    wrong == {x \in 0..(ev.n - 1) : st(x).state = "ok" /\ pre \in DOMAIN cexp /\ st(x).rows # cexp[pre][x + 1]}
+                   \* listed right after a completed failure-free run that read every shard of the cached slice to
+                   \* its end (the scenario says so: must): every shard now has its file, or a later run could not
+                   \* read it from the cache
+                   missing == {x \in 0..(ev.n - 1) : st(x).state = "absent"}
                IN /\ bad' = bad \o (IF corrupt = {} THEN <<>> ELSE <<Fail(r, ev, "ShardFileCompleteOrAbsent", "corrupt")>>)
                               \o (IF wrong = {} THEN <<>> ELSE <<Fail(r, ev, "ShardFileCompleteOrAbsent", "incomplete")>>)
+                              \o (IF Has(ev, "must") /\ ev.must /\ missing # {} THEN <<Fail(r, ev, "CompletedRunLeavesShardFiles", "absent")>> ELSE <<>>)
                   /\ cview' = UpdF(cview, pre, {x \in 0..(ev.n - 1) : st(x).state = "ok"})
                   /\ UNCHANGED <<env, gone, cexp>>
           [] ev.do = "scan" -> bad' = bad \o JudgeScan(r, ev) /\ UNCHANGED <<env, gone, cview, cexp>>
